@@ -54,9 +54,16 @@ initialize_with='fix' (E1: precoders set by hand or left by an earlier solve wit
 Several live objects: two solvers of one class (other channel member, other power) created together and used
     alternately must each end up identical (whole-object digest) to the same call sequence on a single object.
 
-Randomness is owned: solver._rs (and the embedded alt-min solver's) is re-seeded before every solve /
-randomizeF, or the deterministic initialisations svd / closed_form are used.
+Randomness: no relation compares two solver objects that had to draw the same random numbers -- monotone
+leakage is judged per iteration on ONE object driven through the public API (one solve from the case's own
+initialisation, then initialize_with='fix' and max_iterations=1).  For reproducible runs (and for the E3
+reference model of `solve` / `randomizeF`) the solver's random generator is re-seeded when it is reachable
+through the tolerant `_private()` accessor; when it is not, the random events are left out and the outcome
+`oracle_input_unavailable` is recorded.  Non-public attributes are never required: the channel a solver is
+bound to is kept by the check itself; an exception raised by the check's own code ends as Broken.
 """
+import collections
+import contextlib
 import math
 import os
 import traceback
@@ -181,24 +188,83 @@ def p_vec(P, K):
     return np.array([float(x) for x in P])
 
 
+MISSING = object()
+
+
+def _private(obj, *candidate_names, default=MISSING):
+    """tolerant access to a NON-public attribute (an implementation detail the property does not
+    promise): first existing candidate, else `default` -- never an AttributeError.  Callers skip
+    the relation that needed it and record the outcome `oracle_input_unavailable`."""
+    for nm in candidate_names:
+        try:
+            return object.__getattribute__(obj, nm)
+        except Exception:  # noqa
+            continue
+    return default
+
+
+_CHANNELS = collections.OrderedDict()      # id(solver) -> (solver, channel) for solvers built here
+
+
+def channel_of(sv):
+    """the channel object this check bound the solver to (kept by the check, never read back
+    from the solver)"""
+    ent = _CHANNELS.get(id(sv))
+    if ent is None or ent[0] is not sv:
+        raise Broken("channel of a solver that was not built by make_solver")
+    return ent[1]
+
+
+@contextlib.contextmanager
+def guarded(chk, sig_prefix, case):
+    """chk.guard, except that an exception raised by the check's OWN code (innermost frame of
+    the traceback under the verification directory) is a broken check, never a verdict about
+    the property"""
+    with chk.guard(sig_prefix, case):
+        try:
+            yield
+        except (KeyboardInterrupt, SystemExit, Broken):
+            raise
+        except BaseException as e:  # noqa
+            tb = traceback.extract_tb(e.__traceback__)
+            if tb and os.path.abspath(tb[-1].filename).startswith(common.VERIF_DIR + os.sep):
+                raise Broken("the check's own code raised %s: %s at %s:%d" % (
+                    type(e).__name__, e, os.path.basename(tb[-1].filename), tb[-1].lineno))
+            raise
+
+
 def own_rng(solver, seed):
-    """re-seed every RandomState the solve / randomizeF path can draw from"""
-    solver._rs.seed(int(seed))
-    sub = getattr(solver, "_alt_min_ia_solver", None)
-    if sub is not None:
-        sub._rs.seed(int(seed) + 1)
+    """re-seed the RandomState objects the solve / randomizeF path may draw from, so that runs
+    of the check are reproducible.  The generators are implementation details: when one is not
+    reachable nothing is seeded and False is returned -- no relation of the check depends on two
+    solver objects drawing the same numbers except the E3 reference model, which then does
+    without the random events (outcome oracle_input_unavailable)."""
+    ok = False
+    rs = _private(solver, "_rs")
+    if rs is not MISSING and hasattr(rs, "seed"):
+        rs.seed(int(seed))
+        ok = True
+    sub = _private(solver, "_alt_min_ia_solver", "_alt_min_initializer", default=None)
+    rs2 = _private(sub, "_rs") if sub is not None else MISSING
+    if rs2 is not MISSING and hasattr(rs2, "seed"):
+        rs2.seed(int(seed) + 1)
+    return ok
 
 
 def make_solver(name, m, init=None, n=None, best=True):
     from pyphysim.ia import algorithms as A
     cls = getattr(A, name)
     if name == "ClosedFormIASolver":
-        return cls(m, use_best_init=bool(best))
-    sv = cls(m)
-    if init is not None:
-        sv.initialize_with = init
-    if n is not None:
-        sv.max_iterations = int(n)
+        sv = cls(m, use_best_init=bool(best))
+    else:
+        sv = cls(m)
+        if init is not None:
+            sv.initialize_with = init
+        if n is not None:
+            sv.max_iterations = int(n)
+    _CHANNELS[id(sv)] = (sv, m)
+    while len(_CHANNELS) > 512:
+        _CHANNELS.popitem(last=False)
     return sv
 
 
@@ -389,7 +455,7 @@ def run_steps_case(chk, case):
     name, K, Nr, Nt = case["solver"], case["K"], case["Nr"], case["Nt"]
     req = ns_vec(case["Ns"], K)
     ml = name == "MinLeakageIASolver"
-    with chk.guard(("solve", name, "oracle"), case):
+    with guarded(chk, ("solve", name, "oracle"), case):
         m, H = make_channel(case["s"], K, Nr, Nt, None, case.get("hscale", 1.0))
         hkl = blocks(H, Nr, Nt)
         sv = make_solver(name, m, None, 1)
@@ -482,7 +548,7 @@ def e1_cases(tier):
                                 continue        # second noise level: first three members only
                             # quick: MaxSinr / MMSE (no cost sequence to follow) skip 3, 5 and 10
                             its = ITERS if (thorough or name in ITERATIVE[:2]) else (1, 2, 20)
-                            iters = ([0] if init in ("random", "svd") else []) + list(its)
+                            iters = list(its)
                             out.append(dict(part="E1", solver=name, K=K, Nr=list(Nr), Nt=list(Nt), Ns=Ns,
                                             best=None, init=init, P=P, noise=noise, s=s, hscale=hs,
                                             iters=iters))
@@ -657,8 +723,7 @@ def run_e1_case(chk, case):
     name = case["solver"]
     K, Nr, Nt = case["K"], case["Nr"], case["Nt"]
     req = ns_vec(case["Ns"], K)
-    with chk.guard(("solve", name, "oracle"), case):
-        costs = []          # (n, leakage oracle, get_cost, scale)
+    with guarded(chk, ("solve", name, "oracle"), case):
         key = (name, K, tuple(Nr), tuple(Nt), tuple(req), case["init"], case["best"],
                repr(case["P"]), case["noise"], case["s"], case.get("hscale", 1.0))
         for n in case["iters"]:
@@ -680,60 +745,88 @@ def run_e1_case(chk, case):
                 else:
                     sv.solve(Ns_arg, 1.5)
                 sv.initialize_with = "fix"
-            cost_only = (n == 0)
-            if not cost_only:
-                chk.count("eval_solves")
+            chk.count("eval_solves")
             try:
                 ret = sv.solve(Ns_arg, case["P"])
             except Exception as e:  # noqa
-                if cost_only:
-                    continue
                 chk.outcome("solve_result", (name, case["init"], "exception"))
                 chk.fail(solve_exception_sig(case, e), dict(case, n=n),
                          observed="%s: %s" % (type(e).__name__, e), expected="solve completes",
                          msg="raised in %s" % exc_where(e))
                 continue
-            if cost_only:
-                FF = as_list(sv.full_F, K)
-            else:
-                chk.outcome("solve_result", (name, case["init"], "completed"))
-                chk.outcome("configuration", (name, K, tuple(Nr), tuple(Nt), tuple(req), case["init"]))
-                chk.nontriv(key)
-                if name != "ClosedFormIASolver":
-                    chk.outcome("iterations_run", (n, int(ret)))
-                    if ret != sv.runned_iterations or not (1 <= ret <= n or fix):
-                        chk.fail(("solve", name, "returned_iterations"), dict(case, n=n), observed=ret,
-                                 expected="1..%d" % n)
-                FF = check_solution(chk, sv, H, case, n)
-            # --- cost bookkeeping
+            chk.outcome("solve_result", (name, case["init"], "completed"))
+            chk.outcome("configuration", (name, K, tuple(Nr), tuple(Nt), tuple(req), case["init"]))
+            chk.nontriv(key)
+            if name != "ClosedFormIASolver":
+                chk.outcome("iterations_run", (n, int(ret)))
+                if ret != sv.runned_iterations or not (1 <= ret <= n or fix):
+                    chk.fail(("solve", name, "returned_iterations"), dict(case, n=n), observed=ret,
+                             expected="1..%d" % n)
+            FF = check_solution(chk, sv, H, case, n)
+            # get_cost() agrees with the leakage oracle at every checkpoint
             equal_p = len(set(p_vec(case["P"], K).tolist())) == 1
-            if (name in ITERATIVE[:2] and equal_p and not case["noise"] and FF is not None and not fix
+            if (name in ITERATIVE[:2] and equal_p and not case["noise"] and FF is not None
                     and [f.shape[1] for f in FF] == req):
                 L, sc = leakage(FF, blocks(H, Nr, Nt), K, req, per_stream=(name == "MinLeakageIASolver"))
-                costs.append((n, L, float(np.real(sv.get_cost())), sc))
-        # --- monotone leakage / get_cost agrees with the oracle
-        if costs:
-            chk.count("eval_cost_sequences")
-            first_ok = max(req) == 1 or case["init"] == "svd"   # see assumption in main()
-            for (n0, L0, c0, s0), (n1, L1, c1, s1) in zip(costs, costs[1:]):
-                if n0 == 0 and not first_ok:
-                    continue
-                chk.count("eval_cost_steps")
-                if L1 < L0 * (1 - 1e-6) - COST_ATOL * s0:
-                    chk.outcome("cost_strictly_decreased", (name, K, tuple(Nr), case["init"]))
-                if not L1 <= L0 * (1 + COST_RTOL) + COST_ATOL * s0:
-                    chk.fail(("solve", name, "leakage_increases"), dict(case, n=[n0, n1]),
-                             observed="L(%d)=%r -> L(%d)=%r" % (n0, L0, n1, L1), expected="non-increasing")
-                if not c1 <= c0 * (1 + COST_RTOL) + COST_ATOL * s0:
-                    chk.fail(("solve", name, "get_cost_increases"), dict(case, n=[n0, n1]),
-                             observed="cost(%d)=%r -> cost(%d)=%r" % (n0, c0, n1, c1),
-                             expected="non-increasing")
-            if True:        # AltMin: total; MinLeakage: per-stream (its filters have unit Frobenius norm)
-                for (n, L, c, sc) in costs:
-                    if not abs(L - c) <= 1e-8 * max(abs(L), abs(c)) + 1e-11 * sc:
-                        chk.fail(("solve", name, "get_cost_vs_leakage"), dict(case, n=n), observed=c,
-                                 expected=L, msg="get_cost() vs the eigenvalue sums of the check's own Q_k")
-                        break
+                c = float(np.real(sv.get_cost()))
+                if not abs(L - c) <= 1e-8 * max(abs(L), abs(c)) + 1e-11 * sc:
+                    chk.fail(("solve", name, "get_cost_vs_leakage"), dict(case, n=n), observed=c,
+                             expected=L, msg="get_cost() vs the eigenvalue sums of the check's own Q_k")
+        # --- monotone leakage, judged per iteration on ONE object through the public API only
+        equal_p = len(set(p_vec(case["P"], K).tolist())) == 1
+        if name in ITERATIVE[:2] and equal_p and not case["noise"] and not str(case["init"]).startswith("fix"):
+            continuation_run(chk, case)
+
+
+def continuation_run(chk, case, steps=20):
+    """one solver object: one iteration from the case's own initialisation (random / svd /
+    closed_form / alt_min), then initialize_with='fix' and max_iterations=1, i.e. every further
+    solve() performs exactly one more iteration from the current precoders.  Nothing is compared
+    across objects, so no random generator has to be controlled."""
+    name, K, Nr, Nt = case["solver"], case["K"], case["Nr"], case["Nt"]
+    req = ns_vec(case["Ns"], K)
+    hs = case.get("hscale", 1.0)
+    m, H = make_channel(case["s"], K, Nr, Nt, None, hs)
+    hkl = blocks(H, Nr, Nt)
+    sv = make_solver(name, m, case["init"], 1, case["best"])
+    own_rng(sv, 1000 + case["s"])
+    Ns_arg = case["Ns"] if isinstance(case["Ns"], int) else list(case["Ns"])
+    chk.count("eval_cost_sequences")
+    prev = None
+    for it in range(1, steps + 1):
+        try:
+            sv.solve(Ns_arg, case["P"])
+        except Exception as e:  # noqa
+            if it == 1:
+                return          # reported by the checkpoint loop already
+            chk.fail(("solve", name, "continuation", "exception", type(e).__name__, exc_where(e)),
+                     dict(case, n=it), observed="%s: %s" % (type(e).__name__, e),
+                     expected="one more iteration with initialize_with='fix'")
+            return
+        chk.count("eval_solves")
+        if it == 1:
+            sv.initialize_with = "fix"
+        FF = as_list(sv.full_F, K)
+        if FF is None or [f.shape for f in FF] != [(Nt[k], req[k]) for k in range(K)]:
+            chk.count("continuation_runs_ended_by_rank_reduction")
+            return
+        L, sc = leakage(FF, hkl, K, req, per_stream=(name == "MinLeakageIASolver"))
+        c = float(np.real(sv.get_cost()))
+        if prev is not None:
+            chk.count("eval_cost_steps")
+            L0, c0 = prev
+            if L < L0 * (1 - 1e-6) - COST_ATOL * sc:
+                chk.outcome("cost_strictly_decreased", (name, K, tuple(Nr), case["init"]))
+            if not L <= L0 * (1 + COST_RTOL) + COST_ATOL * sc:
+                chk.fail(("solve", name, "leakage_increases"), dict(case, n=[it - 1, it]),
+                         observed="L(%d)=%r -> L(%d)=%r" % (it - 1, L0, it, L), expected="non-increasing")
+                return
+            if not c <= c0 * (1 + COST_RTOL) + COST_ATOL * sc:
+                chk.fail(("solve", name, "get_cost_increases"), dict(case, n=[it - 1, it]),
+                         observed="cost(%d)=%r -> cost(%d)=%r" % (it - 1, c0, it, c),
+                         expected="non-increasing")
+                return
+        prev = (L, c)
 
 
 # ----------------------------------------------------------------------
@@ -898,12 +991,12 @@ def e3_solve(sv, base, variant=0):
     if base["solver"] != "ClosedFormIASolver":
         own_rng(sv, 77 + base["s"])
     Parg = solve_power(base, variant)
-    snap = chan_snapshot(sv._multiUserChannel)
+    snap = chan_snapshot(channel_of(sv))
     if variant == "noP":
         sv.solve(base["Ns"])
     else:
         sv.solve(base["Ns"], Parg)
-    chan_unchanged(sv._multiUserChannel, snap, "solve modifies the channel object")
+    chan_unchanged(channel_of(sv), snap, "solve modifies the channel object")
     if isinstance(Parg, list):
         _unchanged("solve(P)", [Parg], [solve_power(base, variant)])
 
@@ -951,7 +1044,7 @@ def apply_event(sv, ev, base):
         sv.set_receive_filters(W=arg)
         _unchanged("set_receive_filters(W)", list(arg), payload(base, "W"))
     elif t == "chan":
-        apply_chan_event(sv._multiUserChannel, ev, base)
+        apply_chan_event(channel_of(sv), ev, base)
     elif t == "randF":
         own_rng(sv, 500 + ev[1] + base["s"])
         sv.randomizeF(base["Ns"] if isinstance(base["Ns"], int) else list(base["Ns"]))
@@ -974,6 +1067,16 @@ class E3Job:
         self._rnd = None
         self._heff = {}
         self.events = events(chk.tier, base["solver"])
+        # the random initialisation / randomizeF can only be modelled when the solver's random
+        # generator is reachable (an implementation detail): otherwise those parts are left out
+        probe = self.new_solver()
+        self.rng_ok = base["solver"] == "ClosedFormIASolver" or own_rng(probe, 1)
+        if not self.rng_ok:
+            chk.outcome("oracle_input_unavailable", ("solver random generator", base["solver"]))
+            chk.count("e3_jobs_without_random_events")
+            self.events = [e for e in self.events if e[0] != "randF"]
+            if base["init"] == "random":
+                self.base = base = dict(base, init="svd")
         self._err_done = set()
         self._diff_done = set()
 
@@ -1012,8 +1115,10 @@ class E3Job:
                 apply_event(sv, ev, self.base)
             st["failed_event"] = None
             st["digest"] = sdigest(sv, 9)
-            st["caches"] = tuple(a for a in ("_F", "_full_F", "_W", "_W_H", "_full_W_H", "_full_W", "_P")
-                                 if getattr(sv, a, None) is not None) + (type(getattr(sv, "_F", None)).__name__,)
+            # evidence only (which caches are populated); implementation details, read tolerantly
+            vals = [_private(sv, a) for a in ("_F", "_full_F", "_W", "_W_H", "_full_W_H", "_full_W", "_P")]
+            st["caches"] = ("unavailable",) if all(v is MISSING for v in vals) else \
+                tuple(i for i, v in enumerate(vals) if v is not MISSING and v is not None)
         except Exception as e:  # noqa
             st["error"] = e
             st["digest"] = ("error", hist)
@@ -1443,7 +1548,7 @@ class E3Job:
         calls = self._invalid_calls(sv)
 
         def whole():
-            seen = {id(sv._multiUserChannel): 0}
+            seen = {id(channel_of(sv)): 0}
             return bfs.digest(_scaled(dict(bfs.state_of(sv)), seen), 9)
 
         NAMES = ("_F", "_full_F", "_W", "_W_H", "_full_W_H", "_full_W", "_P", "_Ns", "_initialize_with",
@@ -1546,7 +1651,7 @@ class E3Job:
 
         def invariant(hist, st):
             case = dict(part="E3", base=job.base, history=[list(e) for e in hist])
-            with chk.guard(("history", "oracle"), case):
+            with guarded(chk, ("history", "oracle"), case):
                 job.evaluate(tuple(hist), st)
             if len(hist) >= 2:
                 chk.nontriv((job.base["solver"], job.base["s"], st["digest"]))
@@ -1599,8 +1704,15 @@ def run_twin_case(chk, case):
         m, _ = make_channel(b["s"], b["K"], b["Nr"], b["Nt"], b["noise"], b.get("hscale", 1.0))
         return make_solver(b["solver"], m, b["init"], b["n"], b.get("best", True))
 
+    if A["solver"] != "ClosedFormIASolver" and not own_rng(fresh(A), 1):
+        # the random generator is not reachable: only deterministic calls can be compared
+        chk.outcome("oracle_input_unavailable", ("solver random generator", A["solver"]))
+        evs = [e for e in evs if e[0] != "randF"]
+        if A["init"] == "random":
+            A, B = dict(A, init="svd"), dict(B, init="svd")
+        n = len(evs)
     hists = [()] + [(e,) for e in evs] + [(e, f) for e in evs for f in evs]
-    with chk.guard(("two_live_objects", A["solver"], "oracle"), case):
+    with guarded(chk, ("two_live_objects", A["solver"], "oracle"), case):
         for hist in hists:
             c = dict(case, history=[list(e) for e in hist])
             other = tuple(evs[(evs.index(e) + 4) % n] for e in hist)   # what B does in between
@@ -1645,9 +1757,10 @@ def main(chk: Check):
     tier = chk.tier
     chk.assume("MaxSinr / MMSE are exercised with noise_var in {0.05, 1.0}: with zero noise their covariance "
                "matrices are singular for several (K, N, Ns) of the table, i.e. the solver is not defined there")
-    chk.assume("first-iteration monotonicity (cost after 0 vs 1 iterations) is only required when the initial "
-               "precoders have orthogonal equal-norm columns (single stream, or svd initialisation): the "
-               "algorithms minimise over such precoders, a random multi-stream start is outside that set")
+    chk.assume("monotone leakage is judged per iteration on one solver object driven through the public API "
+               "(one solve from the case's initialisation, then initialize_with='fix', max_iterations=1); the "
+               "step from the initial precoders to the first iterate is not judged (a random multi-stream "
+               "start is outside the set the algorithms minimise over)")
     chk.assume("monotone leakage is required for equal powers and noise-free channels only (as stated)")
     chk.assume("leaked power of the minimum-leakage solver is measured through the unit-Frobenius-norm receive "
                "filters it reports (each receiver's eigenvalue sum divided by its stream count); for equal "
@@ -1685,7 +1798,8 @@ def main(chk: Check):
     run_shards(chk, worker, common.ncores())
     chk.sample(jobs[0][1])
     chk.sample(jobs[-1][1])
-    chk.require_outcomes("cache_population", 8)
+    if ("unavailable",) not in chk.outcomes.get("cache_population", ()):
+        chk.require_outcomes("cache_population", 8)
     chk.require_outcomes("channel_state", 8)
     chk.require_outcomes("configuration", 40)
     chk.require_outcomes("iterations_run", 6)
@@ -1710,7 +1824,7 @@ def replay(case, chk: Check):
         base = dict(case["base"])
         hist = _tuplify(case["history"])
         job = E3Job(chk, base, len(hist))
-        with chk.guard(("history", "oracle"), case):
+        with guarded(chk, ("history", "oracle"), case):
             job.evaluate(hist)
     else:
         c = dict(case)
